@@ -55,6 +55,12 @@ var hazardList = []hazard{
 	{"hz_setter_names", "generated-code-does-not-compile:name-clash", "name-clash",
 		"a field SetX next to a field X: the setter of X and the getter of SetX collide",
 		"package hgen.pa\nstruct R1 root {\n  X uint64\n  SetX uint64\n}\n"},
+	{"hz_root_and_dict", "generated-code-does-not-compile:root-and-dict-struct", "root-and-dict-struct",
+		"a struct that is both root and dict(..): the grammar allows ONE struct modifier (the parser refuses the second); if it is ever accepted, the reader template passes *Root where the dictionary decoder wants **Root",
+		"package hgen.pa\nstruct R1 root dict(R1) {\n  F1 uint64\n  F2 string\n}\n"},
+	{"hz_dict_and_root", "generated-code-does-not-compile:root-and-dict-struct", "root-and-dict-struct",
+		"the same with the modifiers in the other order",
+		"package hgen.pa\nstruct R1 dict(R1) root {\n  F1 uint64\n  F2 string\n}\n"},
 	{"hz_direct_recursion", "init-never-terminates", "self-containment",
 		"a struct that contains itself through a NON-optional field is accepted by the parser and compiles, but Init()/New<Struct>() recurse without bound (stack overflow, not recoverable)",
 		"package hgen.pa\nstruct R1 root {\n  F1 R1\n  F2 int64\n}\n"},
